@@ -378,7 +378,15 @@ def dltyped_namedtuple(
             return instance
 
         # Create the new class with our modified __new__ method
-        return cast("type[NT]", type(cls.__name__, (cls,), {"__new__": validated_new}))
+        namespace = {
+            "__new__": validated_new,
+            # stay a plain tuple (no instance __dict__) and keep the identity of the original class
+            "__slots__": (),
+            "__module__": cls.__module__,
+            "__qualname__": cls.__qualname__,
+            "__doc__": cls.__doc__,
+        }
+        return cast("type[NT]", type(cls.__name__, (cls,), namespace))
 
     return _inner_dltyped_namedtuple
 
